@@ -333,9 +333,18 @@ package log
 //@   unchecked frame,no-panic closure-driven flush loop
 //@   requires b != nil && ctx != nil && b.exporter != nil
 //@   assert@call bufferExporter.ForceFlush#* : old(b.stopped.v) == 0 && b.q != nil
+// the flush buffer has room for the whole queue (its capacity, not one batch), so one successful dequeue empties the queue
+//@   assert@store buf#1 : len($val) == b.q.cap
 //@   loop#1 invariant b.stopped.v == old(b.stopped.v)
 //@   loop#1 invariant b.q == old(b.q)
 //@   loop#1 invariant b.q != nil
+
+// the flush attempt: the whole buffer is offered to the queue of this processor, and what was dequeued goes to the export queue
+//@ func (b *BatchProcessor) ForceFlush$1() (r bool)
+//@   prop C06
+//@   unchecked frame,no-panic the export queue is a channel
+//@   requires b != nil && b.q != nil && b.exporter != nil
+//@   assert@call queue.TryDequeue#1 : $arg0 == b.q && $arg1 === buf
 
 // newQueue: ASSUMED to establish the lock invariant (a cyclic list of `size` distinct nodes). Not proved: wf is stated over an
 // uninterpreted numbering of the nodes, and establishing it needs a witness for that numbering, which the contract
